@@ -9,7 +9,7 @@
    20-bit ids) is NOT proved; the end-to-end statement is decided on the implementation by the
    correspondence streams plus the subsequence oracle (partial, see DESIGN.md). *)
 From UF Require Import Consts Base Frame Codec Sender Receiver FrameAck HalfConn
-                       CodecRoundtrip FragmentProofs HcLemmas ReceiverProofs ReceiverOrder.
+                       CodecRoundtrip FragmentProofs HcLemmas ReceiverProofs ReceiverOrder ReceiverData.
 
 (* S1: consecutive ids in submission order; the window entry carries the submitted bytes and channel *)
 Theorem C01_sender_ids_and_payload :
@@ -92,4 +92,27 @@ Example C01_receiver_run :
   log_ids (run_log ex_ops (g_init 4 (pow20 - 1) 100000) []) = [(0, pow20 - 1); (0, pow20); (1, pow20 + 1)].
 Proof. vm_compute. split; reflexivity. Qed.
 
+
+(* ... and every handed-out packet is a production: the packet the assembly window returned, for that very slot
+   generation, when a datagram completed it — same channel, same absolute id, same data *)
+Theorem C01_receiver_delivers_productions :
+  forall w b m ops, 0 < w -> 2 * w <= pow20 -> pow20 mod w = 0 -> b < pow20 ->
+  let L := run_log ops (g_init w b m) [] in
+  let P := run_prod ops (g_init w b m) [] in
+  handed_out ops (receiver_new w b m) = log_data L /\ chan_sorted (log_ids L) /\ forall e, In e L -> In e P.
+Proof. exact receiver_delivers_productions. Qed.
+Print Assumptions C01_receiver_delivers_productions.
+
+Theorem C01_production_spec :
+  forall r dg c k d, prod_of r dg = Some (c, k, d) ->
+  datagram_is_valid dg = true /\ k = pid_sub (dg_seq dg) (r_base r) /\ k < r_wsize r /\ cboff r (dg_chan dg) <= k /\ c = dg_chan dg /\
+  exists asm' alloc' p, asm_try_add (sl_asm (so r k)) (r_alloc r) (r_max_alloc r) dg = (asm', alloc', Some p) /\ d = ap_data p /\
+                        (sl_asm (so r k) = AsmOpen -> d <> None -> dg_frag_last dg = 0 /\ d = Some (dg_data dg)).
+Proof. exact prod_of_spec. Qed.
+
+Example C01_receiver_run_productions :
+  run_prod ex_ops (g_init 4 (pow20 - 1) 100000) [] = [(0, pow20, Some [3]); (0, pow20 - 1, Some [1; 2]); (1, pow20 + 1, Some [4])].
+Proof. vm_compute. reflexivity. Qed.
+
 Check C01_receiver_delivery_log.
+Check C01_receiver_delivers_productions.
